@@ -121,8 +121,10 @@ class Obs:
 
 
 def run_graph(tape, spec, request, cfg, faults=None, fail=None, recorders=None,
-              use_clock=False, extra_ctx=None, callbacks_kw=False, step_cap=None, clock=None):
-    """Run one scheduler call.  `request` uses real keys."""
+              use_clock=False, extra_ctx=None, callbacks_kw=False, step_cap=None, clock=None,
+              extra_kw=None):
+    """Run one scheduler call.  `request` uses real keys.  extra_kw: further keyword
+    arguments of the entry point (e.g. cache=<mapping>)."""
     import dask
     import dask.local
     import dask.multiprocessing
@@ -142,7 +144,7 @@ def run_graph(tape, spec, request, cfg, faults=None, fail=None, recorders=None,
     obs.sim, obs.rec, obs.log, obs.dsk = sim, rec, log, dsk
     obs.value = obs.exc = None
     entry = cfg["entry"]
-    kw = {}
+    kw = dict(extra_kw or {})
     if cfg["chunksize"] is not None:
         kw["chunksize"] = cfg["chunksize"]
     cbs = [rec.tuple()] + [r.tuple() for r in (recorders or [])]
